@@ -76,6 +76,9 @@ func (ex *Exec) initHarnessAPI() {
 		name := ex.varName(ex.concStr(a[0], "vfInt name"))
 		lo, hi := a[1].(*Term), a[2].(*Term)
 		v := tf.Var(name, 64)
+		if lo.IsConst() && hi.IsConst() {
+			v = tf.VarRanged(name, 64, lo.SVal(), hi.SVal())
+		}
 		c := tf.And(tf.Cmp("bvsle", lo, v), tf.Cmp("bvsle", v, hi))
 		if !ex.feasibleNoFork(c) {
 			panic(pathEnd{"infeasible", "vfInt empty range"})
@@ -102,7 +105,8 @@ func (ex *Exec) initHarnessAPI() {
 		name := ex.varName(ex.concStr(a[0], "vfOpaque name"))
 		prefix := ex.concStr(a[1], "vfOpaque prefix")
 		op := ex.newOpaque(name)
-		c := tf.Cmp("bvult", op.len, tf.Const(64, 1<<16))
+		tf.VarRanged(name+".len", 64, 0, 1<<16-1)
+		c := tf.And(tf.Cmp("bvsle", tf.Const(64, 0), op.len), tf.Cmp("bvslt", op.len, tf.Const(64, 1<<16)))
 		ex.addPC(c)
 		ex.inputs = append(ex.inputs, inputDesc{Name: name, Kind: "opaque", Prefix: prefix})
 		segs := append([]seg{}, ex.strSegs(ex.cstr(prefix))...)
@@ -301,7 +305,7 @@ func (ex *Exec) assert(c *Term, id string) {
 		return
 	}
 	q := append(append([]*Term{}, ex.pc...), ex.tf.Not(c))
-	r, m := ex.solver.Check(q, true)
+	r, m := ex.check(q, true)
 	ex.stats.noteSample(id, c)
 	switch r {
 	case Unsat:
